@@ -291,6 +291,12 @@ def events(s, opts, depth_now):
                     if via == "n" and len(path) < 2:
                         continue
                     evs.append(("setc", via, path, form, val))
+            if ct[0] == "A" and ct[1][0] == "S" and opts.get("nd_layouts", True):
+                # NumPy values of ANOTHER dtype and / or laid out otherwise than in C order (converted, Fortran-ordered,
+                # transposed view, both): the assignment converts and re-orders, whatever the axis order of the array type
+                for form in (("ndD", "ndFD", "ndTD", "ndF") if depth_now == 0 else ("ndFD",)):
+                    if xt.nd_ok(ct, val, form):
+                        evs.append(("setc", vias[depth_now % 2] if len(vias) > 1 else vias[0], path, form, val))
     if opts.get("resplit"):
         # NOT a fitting value: an object of the same class and total size whose room is split differently between its parts
         # (each part keeps the room fixed at its creation: the library refuses; a check that asks for this event judges
